@@ -1,11 +1,11 @@
 (* Extraction of the executable model. Directives used: only those of ExtrOcamlBasic and
    ExtrOcamlZBigInt (listed in DESIGN.md section 4); nat stays the inductive type. *)
 From Coq Require Import Extraction ExtrOcamlBasic ExtrOcamlZBigInt.
-From Verif Require Import Model.C14Run Model.Prog Model.C16Run.
+From Verif Require Import Model.C14Run Model.Prog Model.C16Run Model.Plonk.
 Extraction Language OCaml.
 Extraction "model.ml"
   run_add run_sub run_mul run_addc run_subc run_red96 run_red128 run_red160 run_mac run_neg run_square
   run_canon run_fromi64 run_inv run_ext2mul run_ext4mul run_ext5mul
   run_expu64 run_inv2exp run_batchinv run_ext2inv run_ext4inv run_ext5inv run_ext2frob run_ext4frob
   run_ext5frob run_ext2sq run_ext4sq run_ext5sq run_const_w run_const_dth
-  run_prog run_dedup.
+  run_prog run_dedup run_plonkverify run_challenges.
